@@ -38,6 +38,7 @@ def bstr_header_width(b: int):
 def run(ctx):
     R = ctx.report
     generic.cli_converters(ctx, "C10-D4b CLI converters", "suit_generator.cmd_cache_create", 3)
+    generic.subcommand_dispatch(ctx, "C10-D4c sub-command dispatch", "suit_generator.cmd_cache_create", 3)
     repo = ctx.repo
     ctx.use_files("suit_generator/cmd_cache_create.py")
     ev0 = Evaluator(repo, inline_depth=0)
